@@ -175,14 +175,14 @@ func RuleCPanic(c *core.Ctx) {
 			reason: "the swapped name is the valid name of an existing account with its root replaced by another constant root",
 		},
 		"(*lib/model/commodity.Registry).MustGet:panic": {
-			reason:  "called with constant, valid commodity names only",
-			check:   constArgAtAllCallers(1, func(s string) bool { return s != "" && !strings.ContainsAny(s, " :.-_\"") }),
+			reason: "called with constant, valid commodity names only",
+			check:  constArgAtAllCallers(1, func(s string) bool { return s != "" && !strings.ContainsAny(s, " :.-_\"") }),
 		},
 		"lib/common/table.init:" + pkgDecimal + ".RequireFromString": {reason: "constant \"1000\""},
 		"lib/journal/beancount.init:regexp.MustCompile":              {reason: "constant pattern"},
 		"lib/common/date.NewPartition:panic": {
 			reason: "callers must exclude a zero start date (rule C-panic:NewPartition callers)",
-			check: func(c *core.Ctx, site panicSite) string { return "" },
+			check:  func(c *core.Ctx, site panicSite) string { return "" },
 		},
 	}
 	exitOK := func(site panicSite) bool {
